@@ -17,6 +17,7 @@
 #include <pthread.h>
 #include <semaphore.h>
 #include <sys/wait.h>
+#include <sys/syscall.h>
 
 static const char *part;
 static spif_pthreads_t T[3];
@@ -24,10 +25,13 @@ static spif_obj_t L[3];              /* mutex or condition objects */
 static int detached[3];
 static sem_t park[3];
 static volatile int gone[3];
+static volatile long wtid[3];          /* kernel thread id of the worker: a detached thread cannot be joined, so "it is gone" is
+                                          decided by the kernel (tgkill -> ESRCH), i.e. after the C library freed its TLS */
 static int is_cond_slot(int j) { return !strcmp(part, "cond") || (!strcmp(part, "thread") && j == 2); }
 
 static spif_thread_data_t worker(spif_thread_data_t self) {
     int i = (int) (long) spif_pthreads_get_data(SPIF_PTHREADS(self));
+    __atomic_store_n(&wtid[i], (long) syscall(SYS_gettid), __ATOMIC_SEQ_CST);
     sem_wait(&park[i]);
     __atomic_store_n(&gone[i], 1, __ATOMIC_SEQ_CST);
     return NULL;
@@ -35,10 +39,14 @@ static spif_thread_data_t worker(spif_thread_data_t self) {
 static void finish(int i) {
     pthread_t h = spif_pthreads_get_handle(T[i]);
     sem_post(&park[i]);
-    if (detached[i]) { int n = 0; while (!__atomic_load_n(&gone[i], __ATOMIC_SEQ_CST) && n++ < 5000) usleep(200); usleep(2000); }
+    if (detached[i]) {
+        int n = 0; long tid;
+        while (!(tid = __atomic_load_n(&wtid[i], __ATOMIC_SEQ_CST)) && n++ < 5000) usleep(200);
+        for (n = 0; n < 20000 && tid && syscall(SYS_tgkill, (long) getpid(), tid, 0) == 0; n++) usleep(100);
+    }
     else pthread_join(h, NULL);
     spif_pthreads_set_handle(T[i], (pthread_t) 0);          /* the handle is stale now; done() would signal it */
-    detached[i] = 0; gone[i] = 0;
+    detached[i] = 0; gone[i] = 0; wtid[i] = 0;
 }
 static void vh_begin(void) {
     int i;
